@@ -136,6 +136,25 @@ class C01(Prop):
             for p in self.shared_prefix_run(rng, n, k):
                 yield f"frame create {fid} {hexs(p)}", "create-shared-prefix"
                 yield f"frame decode {hexs(wire(fid, p))}", "decode-shared-prefix"
+        # a frame that fails its check (payload bit, footer bit, cut short, wrong start byte) decoded by the same
+        # long-lived SerialFrame, then a create: what a rejected frame leaves behind must not reach the next frame built
+        for _ in range(120 if T else 24):
+            fid, n = rng.randrange(9), rng.choice([0, 1, 2, 7, 30, 200])
+            w = bytearray(wire(fid, rb(rng, n)))
+            how = rng.randrange(4)
+            if how == 0:
+                w[rng.randrange(4, len(w))] ^= 1 << rng.randrange(8)
+            elif how == 1:
+                w[-1 - rng.randrange(2)] ^= 1 << rng.randrange(8)
+            elif how == 2:
+                w = w[:rng.randrange(1, len(w))]
+            else:
+                w[0] ^= 0xFF
+            yield f"frame decode {hexs(bytes(w))}", "decode-rejected"
+            p = rb(rng, rng.randrange(0, 12))
+            fid2 = rng.randrange(9)
+            yield f"frame create {fid2} {hexs(p)}", "create-after-rejected"
+            yield f"frame decode {hexs(wire(fid2, p))}", "decode-after-rejected"
         for _ in range(300 if T else 60):
             n = rng.randrange(0, 64)
             yield f"frame crc {hexs(rb(rng, n))}", "crc"
@@ -266,6 +285,13 @@ class C01(Prop):
         sf = _sf()
         ps = Parser()
         for i, op in enumerate(ops):
+            if op[0] == "reject":
+                # a frame that does not pass its check goes through the decoder; nothing is judged here but the calls after it
+                try:
+                    sf.frame_decode(unhex(op[1]))
+                except Exception:  # noqa: BLE001
+                    pass
+                continue
             if op[0] == "create":
                 fid = op[1]
                 data = None if op[2] == "none" else unhex(op[2])
@@ -332,6 +358,14 @@ class C01(Prop):
                         ops.append(("enable", ehead + tail))
             if rng.random() < 0.3:
                 rng.shuffle(ops)
+            # rejected frames (flipped payload / footer bit, cut short) between the calls
+            for _ in range(rng.randrange(0, 4)):
+                w = bytearray(wire(rng.randrange(9), rb(rng, rng.randrange(0, 40))))
+                if rng.random() < 0.7:
+                    w[rng.randrange(4, len(w))] ^= 1 << rng.randrange(8)
+                else:
+                    w = w[:rng.randrange(1, len(w))]
+                ops.insert(rng.randrange(0, len(ops)), ("reject", hexs(bytes(w))))
             n_ops += len(ops)
             v = self._run_sequence(ops, dbg)
             if v:
